@@ -115,6 +115,15 @@ func inQ(name string) bool {
 	return strings.HasPrefix(name, "Q")
 }
 
+// qName is the name an object of package q gets there: the Q prefix is
+// dropped, so that QL becomes q.L - an object whose name also exists in p.
+func qName(name string) string {
+	if len(name) > 1 && strings.HasPrefix(name, "Q") {
+		return name[1:]
+	}
+	return name
+}
+
 // twoPackageSchemas: a handful of schemas rendered as two inputs with
 // cross-package references in every position (field, array item, map value,
 // union branch, via a local object, and from a foreign object to another
@@ -142,6 +151,9 @@ func twoPackageSchemas() []gschema.Schema {
 		// a foreign object that references another foreign object (closure of the inlining)
 		gschema.WithSupport(gschema.Obj{Name: "Root", T: irgen.Struct1("f", true, ref("QM"))}, gschema.Obj{Name: "QM", T: irgen.Struct1("g", true, ref("S"))}),
 		gschema.WithSupport(gschema.Obj{Name: "Root", T: irgen.Struct1("f", false, ref("QM"))}, gschema.Obj{Name: "QM", T: irgen.Struct1("g", false, irgen.Map(ref("P")))}),
+		// two objects called L, one in each package
+		gschema.WithSupport(gschema.Obj{Name: "Root", T: irgen.StructN([]irgen.Field{{Name: "a", Required: true}, {Name: "b", Required: false}}, []gschema.Term{ref("L"), ref("QL")})},
+			gschema.Obj{Name: "L", T: irgen.Struct1("g", true, irgen.S("string"))}, gschema.Obj{Name: "QL", T: irgen.Struct1("w", true, irgen.S("int64"))}),
 		// two fields, local and foreign
 		gschema.WithSupport(gschema.Obj{Name: "Root", T: irgen.StructN([]irgen.Field{{Name: "a", Required: true}, {Name: "b", Required: false}}, []gschema.Term{ref("S"), irgen.Array(ref("P"))})}),
 	}
@@ -369,13 +381,19 @@ func renderTwoOpenAPI(main string) (map[string]string, string, error) {
 			if inQ(name) != q {
 				continue
 			}
-			out[name] = rewriteRefs(def, func(r string) string {
+			key := name
+			if q {
+				key = qName(name)
+			}
+			out[key] = rewriteRefs(def, func(r string) string {
 				target := strings.TrimPrefix(r, prefix)
 				switch {
 				case !q && inQ(target):
-					return "q.json" + r
+					return "q.json" + prefix + qName(target)
 				case q && !inQ(target):
 					return "p.json" + r
+				case q:
+					return prefix + qName(target)
 				}
 				return r
 			})
@@ -398,12 +416,12 @@ func renderTwoOpenAPI(main string) (map[string]string, string, error) {
 var reIdent = regexp.MustCompile(`\b[A-Z][A-Za-z0-9]*\b`)
 
 // qualify prefixes, outside string literals, every identifier that names an object of package q.
-func qualify(line string) string {
+func qualify(line, prefix string) string {
 	segs := strings.Split(line, `"`)
 	for i := 0; i < len(segs); i += 2 {
 		segs[i] = reIdent.ReplaceAllStringFunc(segs[i], func(id string) string {
 			if inQ(id) {
-				return "q." + id
+				return prefix + qName(id)
 			}
 			return id
 		})
@@ -420,9 +438,9 @@ func renderTwoCUE(main string) (map[string]string, string, error) {
 		}
 		name := l[:i]
 		if inQ(name) {
-			ql = append(ql, l)
+			ql = append(ql, qName(name)+": "+qualify(l[i+2:], ""))
 		} else {
-			pl = append(pl, name+": "+qualify(l[i+2:]))
+			pl = append(pl, name+": "+qualify(l[i+2:], "q."))
 		}
 	}
 	file := func(pkg string, lines []string, imports ...string) string {
